@@ -81,6 +81,7 @@ class B:
         self.features = parent.features if parent else set()
         self.functions = parent.functions if parent else []
         self.value_info = []
+        self.sym_names = set()
         self.root = parent.root if parent else self
 
     # ---- names / values
@@ -676,6 +677,8 @@ def e_sequence(b):
     if r < 0.45:
         others = [w for w in b.visible() if w.seq is None and w.dtype == v.dtype and w.shape == v.shape and w is not v][:2]
         elems = [v] + others
+        if rng.random() < 0.3:
+            elems.append(v)            # the same value twice in one sequence
         (s,) = b.node("SequenceConstruct", elems)
         sv = b.add(Val(s, v.dtype, (), True, False, seq=[e.shape for e in elems]))
         b.features.add("sequence-construct")
@@ -695,10 +698,25 @@ def e_sequence(b):
     # SplitToSequence (scalar split incl. uneven, 1-D split, keepdims) then SequenceAt / SequenceLength / ConcatFromSequence
     ax = rng.randrange(v.rank)
     d = v.shape[ax]
-    mode = rng.choice(["scalar", "vector", "none"])
+    mode = rng.choice(["scalar", "vector", "none", "dyn-scalar"])
     b.features.add("split-to-sequence-" + mode)
     kw = {"axis": ax}
-    if mode == "scalar":
+    if mode == "dyn-scalar":
+        # the chunk size is computed at run time (a scalar with declared shape []): Shape -> Gather;
+        # prefer a graph input with symbolic dimensions, whose Shape the folder cannot evaluate
+        symv = [w for w in b.root.vals if w.name in b.root.sym_names and w.rank >= 1 and w.dtype in (F32, I64) and w.size > 0]
+        if symv and b.parent is None:
+            v = rng.choice(symv)
+            ax = rng.randrange(v.rank)
+            d = v.shape[ax]
+        (sh,) = b.node("Shape", [v])
+        shv = b.out(sh, I64, (v.rank,), True, [], const=False)
+        (gs,) = b.node("Gather", [shv, b.i64(ax)], axis=0)
+        gv = b.out(gs, I64, (), True, [], const=False)
+        b.value_info.append(_vi(gs, I64, (), sym=False))
+        chunks = [d]
+        args = [v, gv]
+    elif mode == "scalar":
         k = rng.randint(1, max(1, d))
         chunks = [k] * (d // k) + ([d % k] if d % k else [])
         args = [v, b.i64(k)]
@@ -1020,6 +1038,8 @@ def gen_dag(rng, idx, profile="mixed", n_nodes=None, overridable=False, value_in
         b.add(Val(name, dt, shp, True, False))
         sym = rng.random() < 0.4
         sym_inputs[name] = sym
+        if sym:
+            b.sym_names.add(name)
         b.inputs.append(_vi(name, dt, shp, sym=sym))
         if 0 in shp:
             b.features.add("zero-size-input")
@@ -1085,6 +1105,8 @@ def gen_dag(rng, idx, profile="mixed", n_nodes=None, overridable=False, value_in
         for v in b.vals:
             if v.seq is None and v.name in produced and (value_info == "all" or rng.random() < 0.5):
                 vis.append(_vi(v.name, v.dtype, v.shape, sym=any_sym and v.dtype != STR))
+    have = {v.name for v in vis}
+    vis += [v for v in b.value_info if v.name not in have and v.name not in {o.name for o in outs}]
     g = helper.make_graph(b.nodes, f"g{idx}", b.inputs, [_vi(o.name, o.dtype, o.shape, sym=True) for o in outs], initializer=b.inits, value_info=vis)
     opsets = [helper.make_opsetid("", opset)]
     if b.functions:
